@@ -387,7 +387,7 @@ class C17(Check):
     pid = "C17"
     title = "Compound (disjunctive) contracts behave as unions of polyhedra"
     level_text = ('Lean theorems nested_contains(+_false,_error,_error_first) / intersect_sem / intersect_no_empty / intersect_alternatives / '
-                  'intersect_forced_disjoint / le_sound / le_no_pairwise / disjoint_accept / disjoint_check(+_only_if,_if,_improper_counterexample) / '
+                  'intersect_forced_disjoint / le_sound / le_no_pairwise / disjoint_accept / disjoint_check(+_only_if,_if,_improper_repaired) / '
                   'compound_wf / merge_compound_sem / merge_compound_no_empty for the executable model of NestedTermList.__init__ / contains_behavior / '
                   'intersect / __le__ and IoContractCompound.__init__ / merge (all sizes, every certified LP oracle); tied to the code by comparing '
                   'alternative lists in order (1e-9 numbers), error kinds and stages, Booleans (tolerance band accepts either); judge independent of the '
@@ -396,7 +396,7 @@ class C17(Check):
     theorems = ["Pacti.C17.nested_contains", "Pacti.C17.nested_contains_false", "Pacti.C17.nested_contains_error", "Pacti.C17.nested_contains_error_first",
                 "Pacti.C17.intersect_sem", "Pacti.C17.intersect_no_empty", "Pacti.C17.intersect_alternatives", "Pacti.C17.intersect_forced_disjoint",
                 "Pacti.C17.le_sound", "Pacti.C17.le_no_pairwise", "Pacti.C17.disjoint_accept", "Pacti.C17.disjoint_check_only_if",
-                "Pacti.C17.disjoint_check_if", "Pacti.C17.disjoint_check", "Pacti.C17.disjoint_check_improper_counterexample",
+                "Pacti.C17.disjoint_check_if", "Pacti.C17.disjoint_check", "Pacti.C17.disjoint_check_improper_repaired",
                 "Pacti.C17.compound_wf", "Pacti.C17.merge_compound_sem", "Pacti.C17.merge_compound_no_empty", "Pacti.C17.driver_oracle_certified"]
     quick_n = 900
     thorough_n = 30000
